@@ -386,4 +386,272 @@ theorem World.runFrom_ref (v : Variant) (K : Nat → Hdr → Key) (H : History) 
     rw [h4, h2]
     simp [Rib.runFrom, List.foldl_append]
 
+/-! ### Histories: append -/
+
+theorem Track.runFrom_append (K : Nat → Hdr → Key) (T : Track) (H1 H2 : History) :
+    T.runFrom K (H1 ++ H2) = (T.runFrom K H1).runFrom K H2 := by
+  simp [Track.runFrom, List.foldl_append]
+
+theorem traceFrom_append (K : Nat → Hdr → Key) (H1 H2 : History) (T : Track) :
+    traceFrom K T (H1 ++ H2) = traceFrom K T H1 ++ traceFrom K (T.runFrom K H1) H2 := by
+  induction H1 generalizing T with
+  | nil => rfl
+  | cons e H1 ih =>
+    simp only [List.cons_append, traceFrom, ih, List.append_assoc, Track.runFrom, List.foldl_cons]
+
+theorem traceFrom_cons (K : Nat → Hdr → Key) (e : Ev) (H : History) (T : Track) :
+    traceFrom K T (e :: H) = (T.step K e).2 ++ traceFrom K (T.step K e).1 H := rfl
+
+/-! ### The register: lookups are stable, ids of up peers are registered -/
+
+theorem lookupUp_mem {h : Hdr} {up : List (Hdr × Mui)} {m : Mui} (hl : Bmp.lookupUp h up = some m) :
+    (h, m) ∈ up := by
+  induction up with
+  | nil => simp [Bmp.lookupUp] at hl
+  | cons e up ih =>
+    simp only [Bmp.lookupUp] at hl
+    by_cases he : e.1 = h
+    · simp only [he, if_true, Option.some.injEq] at hl
+      have : e = (h, m) := by cases e; simp_all
+      simp [this]
+    · simp only [he, if_false] at hl
+      exact List.mem_cons_of_mem _ (ih hl)
+
+theorem lookupUp_filter_self (h : Hdr) (up : List (Hdr × Mui)) :
+    Bmp.lookupUp h (up.filter (fun e => e.1 != h)) = none := by
+  induction up with
+  | nil => rfl
+  | cons e up ih =>
+    by_cases he : e.1 = h
+    · simp [he, ih]
+    · simp [he, Bmp.lookupUp, ih]
+
+theorem lookupUp_filter_other (h h' : Hdr) (hne : h' ≠ h) (up : List (Hdr × Mui)) :
+    Bmp.lookupUp h' (up.filter (fun e => e.1 != h)) = Bmp.lookupUp h' up := by
+  induction up with
+  | nil => rfl
+  | cons e up ih =>
+    by_cases he : e.1 = h
+    · have h2 : ¬ h = h' := fun x => hne x.symm
+      simp [he, ih, Bmp.lookupUp, h2]
+    · simp [he, Bmp.lookupUp, ih]
+
+theorem lookupUp_append_new (h : Hdr) (m : Mui) (up : List (Hdr × Mui)) (hn : Bmp.lookupUp h up = none) :
+    Bmp.lookupUp h (up ++ [(h, m)]) = some m := by
+  induction up with
+  | nil => simp [Bmp.lookupUp]
+  | cons e up ih =>
+    simp only [Bmp.lookupUp, List.cons_append] at hn ⊢
+    by_cases he : e.1 = h
+    · simp [he] at hn
+    · simp only [he, if_false] at hn ⊢
+      exact ih hn
+
+/-- Once a key class has an id, `find_or_register_*` of any key never changes it. -/
+theorem lookupKey_regFor_stable (k k' : Key) (reg : List (Key × Mui)) (next v : Mui)
+    (h : Bmp.lookupKey k reg = some v) : Bmp.lookupKey k (regFor k' reg next).1 = some v := by
+  unfold regFor
+  cases Bmp.lookupKey k' reg with
+  | some id => exact h
+  | none => exact Bmp.lookupKey_append_some h
+
+/-- `find_or_register_*` returns the id its key class has afterwards. -/
+theorem lookupKey_regFor_self (k : Key) (reg : List (Key × Mui)) (next : Mui) :
+    Bmp.lookupKey k (regFor k reg next).1 = some (regFor k reg next).2.2 := by
+  unfold regFor
+  cases hk : Bmp.lookupKey k reg with
+  | some id => exact hk
+  | none => exact Bmp.lookupKey_append_none hk
+
+/-- … and the id the key class already had, if any (a returning peer gets its old id back). -/
+theorem regFor_of_lookup (k : Key) (reg : List (Key × Mui)) (next v : Mui)
+    (h : Bmp.lookupKey k reg = some v) : regFor k reg next = (reg, next, v) := by
+  simp [regFor, h]
+
+theorem TSess.step_reg_stable (K1 : Hdr → Key) (s : TSess) (reg : List (Key × Mui)) (next : Mui) (m : Msg)
+    (k : Key) (v : Mui) (h : Bmp.lookupKey k reg = some v) :
+    Bmp.lookupKey k (s.step K1 reg next m).reg = some v := by
+  unfold TSess.step
+  cases s.life with
+  | fresh => cases m <;> exact h
+  | dead => exact h
+  | live =>
+    cases m with
+    | peerUp h' e c =>
+      simp only
+      cases Bmp.lookupUp h' s.up <;> exact lookupKey_regFor_stable _ _ _ _ _ h
+    | peerDown h' => simp only; cases Bmp.lookupUp h' s.up <;> exact h
+    | routeMon h' t u => simp only; cases Bmp.lookupUp h' s.up <;> exact h
+    | _ => exact h
+
+theorem Track.step_reg_stable (K : Nat → Hdr → Key) (T : Track) (e : Ev) (k : Key) (v : Mui)
+    (h : Bmp.lookupKey k T.reg = some v) : Bmp.lookupKey k (T.step K e).1.reg = some v := by
+  cases e with
+  | connect rk => exact lookupKey_regFor_stable _ _ _ _ _ h
+  | msg i m =>
+    simp only [Track.step]
+    cases T.sess[i]? with
+    | none => exact h
+    | some s => exact TSess.step_reg_stable (K i) s T.reg T.next m k v h
+
+/-- **Register lookups are stable along every history**: an id, once handed out for a key class
+    (router, peer address, AS, RIB type), is what every later `find_or_register` of that class gets. -/
+theorem Track.runFrom_reg_stable (K : Nat → Hdr → Key) (H : History) (T : Track) (k : Key) (v : Mui)
+    (h : Bmp.lookupKey k T.reg = some v) : Bmp.lookupKey k (T.runFrom K H).reg = some v := by
+  induction H generalizing T with
+  | nil => exact h
+  | cons e H ih => exact ih _ (Track.step_reg_stable K T e k v h)
+
+/-- Invariant of every reachable tracker: the id of every up peer is the one registered for its key class. -/
+def Track.Inv (K : Nat → Hdr → Key) (T : Track) : Prop :=
+  ∀ i s, T.sess[i]? = some s → ∀ e ∈ s.up, Bmp.lookupKey (K i e.1) T.reg = some e.2
+
+theorem Track.Inv_init (K : Nat → Hdr → Key) : Track.init.Inv K := by
+  intro i s hs
+  simp [Track.init] at hs
+
+theorem TSess.step_up_sub (K1 : Hdr → Key) (s : TSess) (reg : List (Key × Mui)) (next : Mui) (m : Msg)
+    (hi : ∀ e ∈ s.up, Bmp.lookupKey (K1 e.1) reg = some e.2) :
+    ∀ e ∈ (s.step K1 reg next m).s.up, Bmp.lookupKey (K1 e.1) (s.step K1 reg next m).reg = some e.2 := by
+  unfold TSess.step
+  cases s.life with
+  | fresh => cases m <;> exact hi
+  | dead => exact hi
+  | live =>
+    cases m with
+    | peerUp h' e c =>
+      simp only
+      cases Bmp.lookupUp h' s.up with
+      | some _ => exact fun e he => lookupKey_regFor_stable _ _ _ _ _ (hi e he)
+      | none =>
+        intro e he
+        simp only [List.mem_append, List.mem_singleton] at he
+        rcases he with he | rfl
+        · exact lookupKey_regFor_stable _ _ _ _ _ (hi e he)
+        · exact lookupKey_regFor_self _ _ _
+    | peerDown h' =>
+      simp only
+      cases Bmp.lookupUp h' s.up with
+      | some _ => exact fun e he => hi e (List.mem_filter.mp he).1
+      | none => exact hi
+    | routeMon h' t u => simp only; cases Bmp.lookupUp h' s.up <;> exact hi
+    | term => exact fun e he => nomatch he
+    | init => exact hi
+    | stats _ => exact hi
+    | mirror _ => exact hi
+
+theorem Track.Inv_step (K : Nat → Hdr → Key) (T : Track) (e : Ev) (hi : T.Inv K) : (T.step K e).1.Inv K := by
+  cases e with
+  | connect rk =>
+    intro i s hs e he
+    simp only [Track.step] at hs ⊢
+    rw [List.getElem?_append] at hs
+    split at hs
+    · exact lookupKey_regFor_stable _ _ _ _ _ (hi i s hs e he)
+    · rw [List.getElem?_singleton] at hs
+      split at hs
+      · cases hs; cases he
+      · cases hs
+  | msg i m =>
+    simp only [Track.step]
+    cases hg : T.sess[i]? with
+    | none => exact hi
+    | some s0 =>
+      intro j s hs e he
+      simp only at hs ⊢
+      rw [List.getElem?_set] at hs
+      split at hs
+      · rename_i hij
+        subst hij
+        split at hs
+        · cases hs
+          exact TSess.step_up_sub (K i) s0 T.reg T.next m (hi i s0 hg) e he
+        · cases hs
+      · exact TSess.step_reg_stable (K i) s0 T.reg T.next m _ _ (hi j s hs e he)
+
+theorem Track.Inv_runFrom (K : Nat → Hdr → Key) (H : History) (T : Track) (hi : T.Inv K) :
+    (T.runFrom K H).Inv K := by
+  induction H generalizing T with
+  | nil => exact hi
+  | cons e H ih => exact ih _ (Track.Inv_step K T e hi)
+
+/-! ### The sticky marker agrees with the intended reading unless a key is announced after a withdrawal of its id -/
+
+/-- The property's reading of a session-level withdrawal: the routes of the id are withdrawn, and what the
+    id announces afterwards is active again (= the `perRecordWithdraw` variant of `Model/Rib.lean`). -/
+def intended (vr : Rib.Variant) : Rib.Variant := { vr with perRecordWithdraw := true }
+
+/-- Decidable guard: does some event announce key `(mc, p, m)` after a session-level withdrawal of `m`?
+    (`d` = such a withdrawal has been seen.) -/
+def annAfterDown (mc : Bool) (p : Rib.Prefix) (m : Mui) : Bool → Rib.History → Bool
+  | _, [] => false
+  | d, e :: h => (d && e.announces mc p m) || annAfterDown mc p m (d || e.downs m) h
+
+theorem setWithdrawn_comp : Rib.setWithdrawn ∘ Rib.setWithdrawn = Rib.setWithdrawn := funext fun _ => rfl
+
+theorem specUpd_intended (vr : Rib.Variant) (mc : Bool) (p : Rib.Prefix) (e : Option Rib.Val) (u : Rib.Upd) :
+    Rib.specUpd (intended vr) mc p e u = Rib.specUpd vr mc p e u := by
+  cases u <;> rfl
+
+theorem entry_intended (vr : Rib.Variant) (hv : vr.perRecordWithdraw = false) (mc : Bool) (p : Rib.Prefix) (m : Mui)
+    (h : Rib.History) (s s' : Rib.Abs) (d : Bool)
+    (hd : s.down = d) (hd' : s'.down = false) (he : s'.e = if d then s.e.map Rib.setWithdrawn else s.e)
+    (hg : annAfterDown mc p m d h = false) :
+    (h.foldl (Rib.specEv vr mc p m) s).entry = (h.foldl (Rib.specEv (intended vr) mc p m) s').entry := by
+  induction h generalizing s s' d with
+  | nil =>
+    simp only [List.foldl_nil, Rib.Abs.entry, hd, hd', he]
+    cases d <;> cases s.e <;> simp
+  | cons e h ih =>
+    simp only [annAfterDown, Bool.or_eq_false_iff] at hg
+    rw [List.foldl_cons, List.foldl_cons]
+    have key : (Rib.specEv vr mc p m s e).down = (d || e.downs m) ∧
+        (Rib.specEv (intended vr) mc p m s' e).down = false ∧
+        (Rib.specEv (intended vr) mc p m s' e).e
+          = if (d || e.downs m) = true then (Rib.specEv vr mc p m s e).e.map Rib.setWithdrawn
+            else (Rib.specEv vr mc p m s e).e := by
+      have hdn : ∀ b : Bool, (Rib.specDown vr s).down = true ∧ (Rib.specDown (intended vr) s').down = false ∧
+          (Rib.specDown (intended vr) s').e = if (b || true) = true then (Rib.specDown vr s).e.map Rib.setWithdrawn
+            else (Rib.specDown vr s).e := by
+        intro b
+        simp only [Rib.specDown, hv, intended, Bool.false_eq_true, if_false, if_true, hd', Bool.or_true, he]
+        cases d <;> simp [setWithdrawn_comp]
+      cases e with
+      | upd m' u =>
+        simp only [Rib.specEv, Rib.Ev.downs, Bool.or_false]
+        by_cases hm : m' = m
+        · simp only [hm, if_true, hd, hd', specUpd_intended, he, true_and]
+          cases d with
+          | false => simp
+          | true =>
+            simp only [if_true]
+            cases u with
+            | malformed => rfl
+            | ok a ann wd =>
+              have hna := hg.1
+              simp only [Bool.true_and, Rib.Ev.announces, hm, decide_true, List.contains_eq_mem,
+                decide_eq_false_iff_not] at hna
+              simp only [Rib.specUpd, hna, decide_false, Bool.false_eq_true, if_false]
+              cases vr.overlapFix <;> by_cases hW : (⟨p, Rib.safiOf mc⟩ : Rib.Nlri) ∈ wd <;>
+                simp [hW, setWithdrawn_comp]
+        · simp [hm, hd, hd', he]
+      | down m' =>
+        simp only [Rib.specEv, Rib.Ev.downs]
+        by_cases hm : m' = m
+        · simpa [hm, hd] using hdn d
+        · simp [hm, hd, hd', he]
+      | downBulk ms =>
+        simp only [Rib.specEv, Rib.Ev.downs, List.contains_eq_mem]
+        by_cases hm : m ∈ ms
+        · simpa [hm, hd] using hdn d
+        · simp [hm, hd, hd', he]
+    exact ih _ _ _ key.1 key.2.1 key.2.2 hg.2
+
+/-- As written vs. the intended reading, per key and for every RIB history: the reported entry is the
+    same unless the key is announced again after a session-level withdrawal of its id. -/
+theorem specRun_entry_intended (vr : Rib.Variant) (hv : vr.perRecordWithdraw = false) (mc : Bool) (p : Rib.Prefix)
+    (m : Mui) (h : Rib.History) (hg : annAfterDown mc p m false h = false) :
+    (Rib.specRun vr mc p m h).entry = (Rib.specRun (intended vr) mc p m h).entry :=
+  entry_intended vr hv mc p m h _ _ false rfl rfl rfl hg
+
 end Rotonda.PipeBmp
